@@ -187,6 +187,10 @@ class Continuous(AgentSchedulingComponent):
 
         slots = list()
 
+        # lfs and mem which remain available on this node
+        lfs_free = node['lfs']
+        mem_free = node['mem']
+
         # find at most `n_slots`
         loop_core_idx = 0
         loop_gpu_idx  = 0
@@ -194,6 +198,16 @@ class Continuous(AgentSchedulingComponent):
 
             node_idx  = node['index']
             node_name = node['name']
+
+            if lfs_per_slot and lfs_free is not None:
+                if lfs_per_slot > lfs_free:
+                    self._log.debug_9('not enough lfs on %s', node_name)
+                    break
+
+            if mem_per_slot and mem_free is not None:
+                if mem_per_slot > mem_free:
+                    self._log.debug_9('not enough mem on %s', node_name)
+                    break
 
             self._log.debug_9('find resources on %s:%d', node_name, node_idx)
             self._log.debug_9('node: %s', pprint.pformat(node))
@@ -266,6 +280,9 @@ class Continuous(AgentSchedulingComponent):
             self._log.debug_9('found resources on %s: %s', node_name, slot)
 
             slots.append(slot)
+
+            if lfs_per_slot and lfs_free is not None: lfs_free -= lfs_per_slot
+            if mem_per_slot and mem_free is not None: mem_free -= mem_per_slot
 
         self._log.debug_9('found resources on %s', node_name)
         self._log.debug_9(pprint.pformat(slots))
